@@ -30,7 +30,7 @@ FCC_CHARS = "ABCDEFGHIJKLMNOPQRSTUVWXYZabcdefghijklmnopqrstuvwxyz0123456789"
 def gen_program(rnd, n, features=None, origin=None, short_reach=6):
     """features: set restricting statement kinds; None = everything in the 'safe' grammar"""
     F = features or {"inh", "imm", "mem", "memlbl", "immlbl", "idx", "idxconst", "idxneg", "rel", "lrel", "pcr", "data", "equ", "stack",
-                     "expr", "extind", "datalbl"}
+                     "expr", "extind", "datalbl", "idxlbl"}
     nlabels = max(1, min(len(LABEL_POOL), n // 3 + 1))
     names = rnd.sample(LABEL_POOL, nlabels)
     equs = []
@@ -59,7 +59,7 @@ def gen_program(rnd, n, features=None, origin=None, short_reach=6):
 
     kinds = []
     for k, w in (("inh", 3), ("imm", 3), ("mem", 2), ("memlbl", 3), ("immlbl", 2), ("idx", 3), ("idxconst", 3), ("idxneg", 1),
-                 ("rel", 3), ("lrel", 2), ("pcr", 2), ("data", 3), ("datalbl", 1), ("stack", 1), ("expr", 2), ("extind", 1), ("equuse", 2 if equs else 0)):
+                 ("rel", 3), ("lrel", 2), ("pcr", 2), ("data", 3), ("datalbl", 1), ("idxlbl", 1), ("stack", 1), ("expr", 2), ("extind", 1), ("equuse", 2 if equs else 0)):
         if k in F or (k == "equuse" and "equ" in F):
             kinds += [k] * w
     for i, s in enumerate(stmts):
@@ -129,6 +129,11 @@ def gen_program(rnd, n, features=None, origin=None, short_reach=6):
             t = rnd.choice(["#{%s}", "{%s},X", "[{%s},Y]", "{%s}"])
             mn = rnd.choice(IMM8 if t.startswith("#") else MEM8)
             s.update(mn=mn, op=t % c, refs=[c], kind="equuse")
+        elif k == "idxlbl":
+            # a label (or label+-n) as the constant offset of a pointer register: an absolute reference in the 16-bit offset field
+            reg = rnd.choice(REGS)
+            t = rnd.choice(["{%s},%s", "[{%s},%s]", "{%s}+%d,%s" % ("%s", rnd.randrange(1, 9), "%s"), "{%s}-%d,%s" % ("%s", rnd.randrange(1, 9), "%s")])
+            s.update(mn=rnd.choice(MEM8 + MEM16 + LEA), op=t % (L, reg), refs=[L], abs=True, kind="idxlbl")
         elif k == "datalbl":
             # address tables: FDB lists whose elements are labels, label+-n, EQU constants and numbers (wordmask: which words move with the origin)
             items, mask, refs = [], [], []
